@@ -70,6 +70,20 @@ def run_case(case):
 			rfiles = sorted(os.listdir(rdir))
 			rnd = random.Random(case.get('seed', 0))
 			rpaths = [os.path.join(rdir, f) for f in rnd.sample(rfiles, case.get('nr', 3))]
+			if case.get('collide'):
+				# references carry the queries' file names (another directory, maybe another extension / compression) but a different genome's content
+				import gzip
+				rdir = os.path.join(tmp, 'refs')
+				os.makedirs(rdir)
+				rpaths = []
+				kq = len(qpaths)
+				for j, qp in enumerate(qpaths):
+					src = qpaths[(j + 1) % kq]
+					name = spec_label(qp) + ('.fasta', '.fna', '.fa.gz')[(j + case.get('seed', 0)) % 3]
+					raw = (gzip.open if src.endswith('.gz') else open)(src, 'rb').read()
+					with (gzip.open if name.endswith('.gz') else open)(os.path.join(rdir, name), 'wb') as f:
+						f.write(raw)
+					rpaths.append(os.path.join(rdir, name))
 			rsigs, rlabels = [_sig(p, ks) for p in rpaths], [spec_label(p) for p in rpaths]
 			if rchan == 'files':
 				for p in rpaths:
@@ -113,6 +127,10 @@ def bounded(tier, seed):
 		k = rnd.choice([1, 2, 4])
 		cases.append({'kind': 'cli', 'q': rnd.sample(allg, k), 'qgz': [rnd.random() < .3 for _ in range(k)], 'qchan': qc, 'rchan': rc,
 		              'nr': rnd.choice([1, 3]), 'seed': rnd.randrange(1000), 'cores': rnd.choice([None, 1, 3])})
+	for qc, rc in [('files', 'files'), ('list', 'list'), ('files', 'list'), ('list', 'files'), ('files', 'sigs'), ('sigs', 'files')]:
+		k = rnd.choice([2, 3])
+		cases.append({'kind': 'cli', 'q': rnd.sample(allg, k), 'qgz': [rnd.random() < .3 for _ in range(k)], 'qchan': qc, 'rchan': rc, 'collide': True,
+		              'seed': rnd.randrange(1000), 'cores': rnd.choice([None, 2])})
 	n, failures, sample = 0, [], []
 	for c in cases:
 		r = run_case(c)
@@ -124,4 +142,4 @@ def bounded(tier, seed):
 			if len(failures) >= 4:
 				break
 	return {'tool': 'real dump_dmat_csv on random matrices/labels; real `gambit dist` in-process against per-pair jaccarddist',
-	        'bound': f'{len(cases)} cases; {len(combos)} of the 3 x 5 source combinations', 'cases': n, 'failures': failures, 'samples': sample}
+	        'bound': f'{len(cases)} cases; {len(combos)} of the 3 x 5 source combinations; 6 batches whose reference files share the query files\' names but hold other genomes', 'cases': n, 'failures': failures, 'samples': sample}
